@@ -115,6 +115,16 @@ def draw_step(draw, m, kind, cfg):
                 return None
             k = draw(st.integers(1, min(3, len(cand))))
             sel = draw(st.lists(st.sampled_from(cand), min_size=k, max_size=k, unique=cfg.get("sf_unique", True)))
+            if cfg.get("sf_overlap") and draw(st.sampled_from([True, False, False])):
+                # selections that reach a file twice: a folder together with something inside it, or the root itself
+                x = sel[0]
+                inside = [c for c in cand if c.startswith(x + "/")]
+                if inside:
+                    sel.append(draw(st.sampled_from(inside)))
+                elif "/" in x and x.rsplit("/", 1)[0] != root and x.rsplit("/", 1)[0].startswith(root):
+                    sel.insert(0, x.rsplit("/", 1)[0])
+                elif cfg.get("sf_root"):
+                    sel.insert(draw(st.integers(0, len(sel))), root)
             step["op"] = "create_sf"
             step["sf"] = sel
             step["flags"] = [f for f in flags if f != "-n"]
